@@ -230,6 +230,10 @@ theorem c19_gen_local_formatters (z : Zone) (dt : DateTime) (f : Fmt) (short : B
       | f, short => formatText (localtime z dt.timestamp) f short :=
   formatLocalText_eq z dt f short
 
+theorem c19_gen_time_glue :
+    Gen.Date.gmtimeCallee = "gmtime_r" ∧ Gen.Date.localtimeCallee = "localtime_r" ∧ Gen.Date.timegmCallee = "timegm" := by
+  decide
+
 theorem c19_gen_month_table : ∀ m : Fin 12, monthNumber (monthName (m.val : Int) ++ [32]) = some m.val := monthTable_ok
 
 theorem c19_gen_constants :
